@@ -1699,6 +1699,22 @@ private:
         return false; // not inserted yet => no tags to clean
       }
       ::SSL_set_fd(s->ssl, cfd);
+      {
+        // A connection made to a host name: send it as SNI and, when the peer is
+        // verified, require the certificate to be issued for that name.
+        in_addr a4{};
+        in6_addr a6{};
+        const bool isLiteral = ::inet_pton(AF_INET, cr.host.c_str(), &a4) == 1 ||
+                               ::inet_pton(AF_INET6, cr.host.c_str(), &a6) == 1;
+        if (!isLiteral && !cr.host.empty())
+        {
+          ::SSL_set_tlsext_host_name(s->ssl, cr.host.c_str());
+          if (_config.clientTls.verifyPeer)
+          {
+            ::SSL_set1_host(s->ssl, cr.host.c_str());
+          }
+        }
+      }
       ::SSL_set_connect_state(s->ssl);
       s->tlsState = TlsState::Handshake;
       s->tlsStart = MonoClock::now();
